@@ -291,7 +291,43 @@ impl C09 {
         let mut log: Vec<String> = vec![];
         let mut quotients = 0;
         for _ in 0..steps {
-            match r.below(8) {
+            match r.below(10) {
+                8 => {
+                    // absorb another diagram that carries pending unifications of its own (in place)
+                    let consistent = r.chance(5, 6);
+                    let g = gen::lax(r, &OhParams::tiny(), 2, consistent);
+                    if r.chance(1, 2) {
+                        log.push(format!("tensor_assign({})", show_lax(&g)));
+                        f.tensor_assign(to_lax(&g));
+                        m = m.tensor(&g);
+                    } else {
+                        log.push(format!("append({})", show_lax(&g)));
+                        let _ = f.append(to_lax(&g));
+                        let (s, t) = (m.s.clone(), m.t.clone());
+                        m = m.tensor(&g);
+                        m.s = s;
+                        m.t = t;
+                    }
+                    ctx.count("events:history_absorbs_a_diagram_with_pending_pairs");
+                }
+                9 => {
+                    // delete nodes (possibly endpoints of pending pairs; identifiers may repeat)
+                    if m.w.is_empty() {
+                        continue;
+                    }
+                    let k = r.range(1, 2);
+                    let mut ids = r.vec_below(k, m.w.len());
+                    if r.chance(1, 3) {
+                        ids.push(ids[0]);
+                    }
+                    log.push(format!("delete_nodes({:?})", ids));
+                    if ids.iter().any(|i| m.q.iter().any(|&(a, b)| (a == *i) != (b == *i))) {
+                        ctx.class("history_deletes_one_endpoint_of_a_pending_pair");
+                    }
+                    let nids: Vec<lax::NodeId> = ids.iter().map(|&i| lax::NodeId(i)).collect();
+                    f.delete_nodes(&nids);
+                    super::c11::model_delete_nodes(&mut m, &ids);
+                }
                 0 | 1 => {
                     let l = r.below(2) as u32;
                     let id = f.new_node(l);
@@ -358,10 +394,21 @@ impl C09 {
                 }
             }
             // lock-step: all public fields equal the shadow model after every step
+            // (pending pairs compared as a multiset of unordered pairs; the model then adopts the library's list)
             let now = from_lax(&f).ok();
             ctx.count("events:history_steps");
-            if !ctx.check(now.as_ref() == Some(&m), "history/lock-step/value/any", || json!({"log": log, "observed": now.as_ref().map(show_lax), "expected": show_lax(&m)})) {
+            let same = match &now {
+                Some(x) => {
+                    let norm = |q: &Vec<(usize, usize)>| { let mut v: Vec<(usize, usize)> = q.iter().map(|&(a, b)| (a.min(b), a.max(b))).collect(); v.sort(); v };
+                    x.w == m.w && x.e == m.e && x.s == m.s && x.t == m.t && norm(&x.q) == norm(&m.q) && lax_lens(&f) == plax_lens(&m)
+                }
+                None => false,
+            };
+            if !ctx.check(same, "history/lock-step/value/any", || json!({"log": log, "observed": now.as_ref().map(show_lax), "expected": show_lax(&m)})) {
                 return;
+            }
+            if let Some(x) = now {
+                m.q = x.q;
             }
         }
         if quotients >= 2 {
@@ -379,7 +426,7 @@ impl Monitor for C09 {
     fn rule(&self) -> &'static str {
         "cases: hostile corpus (no pairs, no nodes, self pairs, repeated pairs, minimal label conflict, conflict with edges and interfaces, star, chains of 10^3 with \
          and without one hidden conflicting label, chain of 2*10^4) then seeded lax diagrams with label-consistent or arbitrary unification lists, and histories of \
-         5-40 steps of new_node / new_edge / unify / interface growth / quotient with a shadow model in lock-step. All public fields are snapshotted before and after \
+         5-40 steps of new_node / new_edge / unify / interface growth / tensor_assign or append of a diagram with pending pairs of its own / delete_nodes (also of one endpoint of a pending pair) / quotient with a shadow model in lock-step. All public fields are snapshotted before and after \
          every quotient() on lax::OpenHypergraph and lax::Hypergraph. Oracle: naive flood-fill components of the pair list; Ok iff every class is label-uniform; on Ok \
          the returned map has exactly those fibres, is onto, and every field equals the old diagram pushed through it with the pending list cleared; a second call \
          changes nothing; on Err every field equals the snapshot. non-trivial = >=1 pair joining two different nodes, or a history; distinct = hash of diagram / step log. Also: the read-only coequalizer() of a bare lax hypergraph (same partition, diagram untouched) and the lengths of all public vectors on the failure path."
@@ -390,6 +437,8 @@ impl Monitor for C09 {
     fn floors(&self) -> Vec<(&'static str, u64)> {
         vec![
             ("class:label_consistent", 200),
+            ("events:history_absorbs_a_diagram_with_pending_pairs", 500),
+            ("class:history_deletes_one_endpoint_of_a_pending_pair", 100),
             ("class:long_unification_chain_on_a_thread_stack", 6),
             ("class:label_conflict", 100),
             ("class:has_self_pair", 20),
